@@ -86,6 +86,7 @@ func scriptString(sc []action) string {
 }
 
 type result struct {
+	deliveredAfter int // blocks the victim delivered after its reset
 	afterReset int // events the victim inserted after its reset
 	diverged   bool
 	detail     string
@@ -112,11 +113,13 @@ func run(out *bufio.Writer, n int, sc []action, hid int) result {
 	}
 	victim := n - 1
 	reset := false
+	finalAtReset := 0
 	after := func(a *hx.Node, ran bool) {
 		before := len(a.Inserted)
 		a.AfterAction(ran)
 		if a.ID == victim && reset {
 			res.afterReset += len(a.Inserted) - before
+			res.deliveredAfter = len(a.Final) - finalAtReset
 		}
 		if a.ID == victim && reset && !res.diverged {
 			// oracle: rounds of the events known to the victim vs a full-history node
@@ -210,6 +213,7 @@ func run(out *bufio.Writer, n int, sc []action, hid int) result {
 			}
 			a.ResetTracked(hexes)
 			reset = true
+			finalAtReset = len(a.Final)
 			res.resets++
 			after(a, false)
 		}
@@ -421,6 +425,7 @@ func main() {
 	script := flag.String("script", "", "script to replay")
 	noshrink := flag.Bool("noshrink", false, "print the first diverging script without shrinking")
 	searchok := flag.Int("searchok", 0, "search (and shrink) a history with a reset, later insertions and NO divergence")
+	mindeliv := flag.Int("mindeliv", 0, "with -searchok: the reset node must deliver at least this many blocks after its reset")
 	emit := flag.Int("emit", 0, "print the traces of this many random scripts (correspondence mode)")
 	flag.Parse()
 	out := bufio.NewWriterSize(os.Stdout, 1<<20)
@@ -454,7 +459,7 @@ func main() {
 	if *searchok > 0 {
 		// a small history in which the reset node goes on inserting events WITHOUT any round divergence
 		// (non-vacuity example of the continuity theorems)
-		okp := func(r result) bool { return r.resets == 1 && !r.diverged && r.afterReset >= 3 }
+		okp := func(r result) bool { return r.resets == 1 && !r.diverged && r.afterReset >= 3 && r.deliveredAfter >= *mindeliv }
 		for i := 0; i < *searchok; i++ {
 			sc := randomScript(rng, *n, *length)
 			if okp(quiet(*n, sc)) {
